@@ -112,7 +112,10 @@ class ElementTraits<std::index_sequence<I...>, Parameter...>
 
     // BreakAtPadding: a parameter with an alignment may be preceded by padding bytes. Runs that are compared with
     // memcmp must not extend across them, their content is indeterminate.
-    template <template <class> class Predicate, bool BreakAtPadding = false>
+    // BreakAtSpans (equality only): a run must not extend across a FixedSize or VaryingSize parameter either. Only the
+    // length of a run as a whole is compared, so two elements whose spans split the same bytes differently would
+    // compare equal.
+    template <template <class> class Predicate, bool BreakAtPadding = false, bool BreakAtSpans = false>
     static constexpr auto calculate_consecutive_indices() noexcept
     {
         std::array<std::size_t, sizeof...(Parameter)> consecutive_indices{((void)I, SKIP)...};
@@ -122,11 +125,18 @@ class ElementTraits<std::index_sequence<I...>, Parameter...>
             {
                 if constexpr (Predicate<typename detail::ParameterTraits<Parameter>::ValueType>::value)
                 {
-                    if constexpr (BreakAtPadding && detail::ParameterTraits<Parameter>::ALIGNMENT > 1)
+                    constexpr bool IS_SPAN =
+                        detail::ParameterTraits<Parameter>::TYPE != detail::ParameterType::PLAIN;
+                    if constexpr ((BreakAtPadding && detail::ParameterTraits<Parameter>::ALIGNMENT > 1) ||
+                                  (BreakAtSpans && IS_SPAN))
                     {
                         index = I;
                     }
                     consecutive_indices[index] = I;
+                    if constexpr (BreakAtSpans && IS_SPAN)
+                    {
+                        index = I + 1;
+                    }
                 }
                 else
                 {
@@ -146,7 +156,7 @@ class ElementTraits<std::index_sequence<I...>, Parameter...>
         calculate_consecutive_indices<detail::IsTriviallySwappable>()};
 
     static constexpr auto CONSECUTIVE_EQUALITY_MEMCMPABLE_INDICES{
-        calculate_consecutive_indices<detail::EqualityMemcmpCompatible, true>()};
+        calculate_consecutive_indices<detail::EqualityMemcmpCompatible, true, true>()};
 
     static constexpr auto CONSECUTIVE_LEXICOGRAPHICAL_MEMCMPABLE_INDICES{
         calculate_consecutive_indices<detail::LexicographicalMemcmpCompatible, true>()};
